@@ -337,6 +337,18 @@ theorem C08_served_session_total (text idx : List UInt8) (pre post : List Nat) (
         cases h
         exact ⟨by simp, (BPC.lookupSeq_spec text ix _ pre hl).2, (BPC.lookupSeq_spec text ix _ post hl).2⟩
 
+/-- **When the memo tables matter.** `BreakpadSymbolMapCache` memoises parsed PUBLIC / FUNC records under their
+file offset alone. If, among the symbol entries of the index, kind and offset determine the length (so for
+every index in which no two symbols start at the same file offset — what the creator writes), any sequence of
+lookups on one map answers, address by address, exactly what the memo-free `BP.lookup` of C10's model answers;
+the order and repetition of the lookups is unobservable. Only an index violating the hypothesis (a corrupted
+one) can make an answer depend on the history — `BPC.lookupC` models that case, the `entry-bounds` operations
+exercise it, and `C08_served_lookups_total` covers it. -/
+theorem C08_memo_unobservable (text : List UInt8) (ix : BP.Index) (addrs : List Nat)
+    (hdet : ∀ e ∈ ix.entries, ∀ e' ∈ ix.entries, e.kind = e'.kind → e.offset = e'.offset → e.len = e'.len) :
+    BPC.lookupSeq text ix BPC.Cache.empty addrs = addrs.map (BP.lookup text ix) :=
+  BPC.lookupSeq_eq text ix _ addrs hdet (BPC.cacheOk_empty text ix)
+
 /-- **Clause (f) on C10's symbol-map model.** Any text below 2^64 bytes, with or without a stored index of any
 contents: building the map panics only in the excluded region (a self-built index of 4 GiB or more, see
 `C08_symindex_layout_excluded`), in particular never at `parse_symindex_file(..).unwrap()`
